@@ -2443,6 +2443,12 @@ class Engine(object):
             self.havoc_heap(H, key)
         if spec.get("modifies"):
             self.wf_after_havoc(H, P, spec.get("allocates", ()), spec.get("modifies"))
+        # Python re-reads len(seq) at every step of `for x in seq`; the cut uses the length at entry (`hi`).  If the loop may
+        # write the length array of this list kind, "the iterated list keeps its length" becomes an obligation of every
+        # iteration (below) and - by induction - a fact at the loop head.
+        len_guard = seq is not None and self.lenkey(seq.ekind) in spec.get("modifies", [])
+        if len_guard:
+            H.assume(self.l_len(H, seq) == hi.t)
         if kind == "for":
             iv = self.lookup(H, ctx, idxname)
             if step == 1:
@@ -2501,6 +2507,8 @@ class Engine(object):
                         if undeclared:
                             raise SpecError("loop %s of %s writes heap fields %s not in its modifies clause"
                                             % (k, fn, sorted(undeclared)))
+                        if len_guard:
+                            self.oblige(r, "loop%s.iterated_list_keeps_its_length" % k, self.l_len(r, seq) == hi.t, "safe")
                         for (nm, src) in invs:
                             self._splits = (spec.get("preserve_splits") or {}).get(nm)
                             try:
